@@ -1,5 +1,5 @@
 (* C10 — no needless serialisation. Statements only; proofs in PlanSkip.v. *)
-From Shred Require Import Base SrcParams Plan PlanObs PlanLemmas PlanInv PlanLoc PlanBuild PlanProps PlanSkip.
+From Shred Require Import Base SrcParams Plan PlanObs PlanLemmas PlanInv PlanLoc PlanBuild PlanProps PlanSkip BatchProps OracleProps.
 
 (* [justified sts done e]: if the system of entry e sits in stage k, then every stage j with
    (barrier index at its insertion) <= j < k
@@ -44,6 +44,10 @@ Proof. exact max_threads_is_widest. Qed.
 Print Assumptions C10_max_threads_is_widest_stage.
 
 (* the two input classes that the unrepaired planner got wrong (fixed: f8d62d5) *)
+Theorem C10_oracle_max_threads_holds_on_model : forall b, o_max_threads (layout_tags b) (max_threads b) = true.
+Proof. exact o_max_threads_on_model. Qed.
+Print Assumptions C10_oracle_max_threads_holds_on_model.
+
 Example C10_prebarrier_dependency :
   let rs := [RSys 1 [97] [] [] [] 5%Z; RBarrier; RSys 2 [98] [] [] [] 1%Z; RSys 3 [99] [[97]] [] [] 1%Z] in
   exists b, plan rs = Ok b /\ layout_tags b = [[[1]]; [[2]; [3]]]%N.
